@@ -17,6 +17,15 @@ PROFILES = ["release", "debug"]
 CRASH = ("PANIC", "ABORT", "HANG")
 
 
+def _fail(ctx, key, what, cases, impl=None, expect=None):
+    """at most 3 recorded failures per class, so that a frequent (known) class cannot crowd out a new one"""
+    n = ctx.dist.get("fail:" + key, 0)
+    ctx.count("fail:" + key)
+    if n < 3:
+        ctx.fail(key, what, cases, impl, expect)
+
+
+
 def cfgs(rng, n, profile="r"):
     out = []
     for _ in range(n):
@@ -88,7 +97,7 @@ def has_glued_bang(d):
     return items(d.items)
 
 
-def has_mixed_nested_op(d):
+def has_mixed_nested_op(d, any_op=False):
     """a key-value list inside an array whose value holds an object field with a non-`=` operator: the
     writer's mixed mode is only reset by write_end, so write_operator inside the nested object prints the
     operator glued and leaves the state at KeyValueSeparator; the value then gets a spurious `=` (`c<d` -> `c<=d`)"""
@@ -97,7 +106,7 @@ def has_mixed_nested_op(d):
     def items(its, inside):
         for it in its:
             if isinstance(it, D.Field):
-                if inside and it.op not in (None, "="):
+                if inside and (any_op or it.op not in (None, "=")):
                     return True
                 if val(it.value, inside):
                     return True
@@ -150,7 +159,7 @@ def run(ctx, widen=False):
     for k, (d, rtable, x) in enumerate(inputs):
         o = impl[base + k]
         if not o.startswith("ok "):
-            ctx.fail("docgen-parse", "a well-formed rendering does not parse: %r -> %s" % (x[:80], o), [pcases[k]], [o], "ok")
+            _fail(ctx, "docgen-parse", "a well-formed rendering does not parse: %r -> %s" % (x[:80], o), [pcases[k]], [o], "ok")
             continue
         tape = o.split(" ", 2)[2]
         if tape != docgen.flatten(d):
@@ -175,11 +184,11 @@ def run(ctx, widen=False):
     for k, c in enumerate(wcases):
         o = impl[base + k]
         if o in CRASH:
-            ctx.fail("write-tape-crash", "write_tape crashed (%s) on a parsed tape" % o, [c], [o], "ok")
+            _fail(ctx, "write-tape-crash", "write_tape crashed (%s) on a parsed tape" % o, [c], [o], "ok")
         elif not o.startswith("ok "):
-            ctx.fail("write-tape-err", "write_tape on a parsed tape: %s" % o[:60], [c], [o], "ok")
+            _fail(ctx, "write-tape-err", "write_tape on a parsed tape: %s" % o[:60], [c], [o], "ok")
         elif o.split(" ")[2] != "0.1":
-            ctx.fail("write-tape-state-param-value" if has_param_value(meta[k][0]) else "write-tape-state", "after write_tape of a complete document depth()/expecting_key() are %s, not 0/true" % o.split(" ")[2], [c], [o], "0.1")
+            _fail(ctx, "write-tape-state-param-value" if has_param_value(meta[k][0]) else "write-tape-state", "after write_tape of a complete document depth()/expecting_key() are %s, not 0/true" % o.split(" ")[2], [c], [o], "0.1")
     dcases = wcases[:ctx.scale(400, 3000)]
     dcases = ["\t".join([p if j != 1 else p[:-1] + "d" for j, p in enumerate(c.split("\t"))]) for c in dcases]
     ctx.correspond("write_tape_debug", dcases, nontrivial=nt, profile="debug")
@@ -196,7 +205,7 @@ def run(ctx, widen=False):
     for k, (d, rtable, x, tape, cfg) in enumerate(rmeta):
         o = impl[base + k]
         if o in CRASH:
-            ctx.fail("rt-crash", "parse/write/parse crashed: %s" % o, [rcases[k]], [o]); continue
+            _fail(ctx, "rt-crash", "parse/write/parse crashed: %s" % o, [rcases[k]], [o]); continue
         r = parse_rt(o)
         if not rtable:
             ctx.count("not_roundtrippable_docs")
@@ -204,10 +213,10 @@ def run(ctx, widen=False):
         pv = has_param_value(d)
         if r.get("t2") != r.get("t1") or "t1" not in r:
             key = "rt-param-value" if pv else ("rt-mixed-nested-op" if has_mixed_nested_op(d) else ("rt-glued-bang" if has_glued_bang(d) else "rt-structure"))
-            ctx.fail(key, "write_tape(parse x) re-parses to a different tape (cfg %s): x=%r written=%r" % (cfg, x[:120], unhex(r.get("o1", "-"))[:160] if not r.get("o1", "").startswith("ERR") else r.get("o1")),
+            _fail(ctx, key, "write_tape(parse x) re-parses to a different tape (cfg %s): x=%r written=%r" % (cfg, x[:120], unhex(r.get("o1", "-"))[:160] if not r.get("o1", "").startswith("ERR") else r.get("o1")),
                      [rcases[k]], [o], "t2 = t1 = " + tape[:200])
         elif r.get("o2") != r.get("o1"):
-            ctx.fail("rt-idempotent", "write . parse is not a fixed point (cfg %s): x=%r" % (cfg, x[:120]), [rcases[k]], [o], "o2 = o1")
+            _fail(ctx, "rt-idempotent", "write . parse is not a fixed point (cfg %s): x=%r" % (cfg, x[:120]), [rcases[k]], [o], "o2 = o1")
         else:
             ctx.count("roundtrips_ok")
 
